@@ -2,8 +2,9 @@
   E6 — model of the DD-native persist layer (src/storage/persist/mod.rs, wal.rs, batch.rs, consolidate.rs) and of
   the storage-engine paths that drive it (src/storage_engine/mod.rs: insert_tuples_into, delete_tuples_from,
   drop_relation_in, save_knowledge_graph, compact_all, StorageEngine::new → load_all_knowledge_graphs), written as
-  sequences of labelled file-system steps over `ILV.FS`, in the code's order.  One knowledge graph (`default`), so a
-  shard is identified with its relation name.  Durability mode `Immediate`, `max_wal_size_bytes = 0`.
+  sequences of labelled file-system steps over `ILV.FS`, in the code's order.  A shard is named `<kg>:<relation>`
+  (byte string); its metadata file is `shards/<metaFile shard>` with the file-name function of persist/mod.rs:857
+  modelled explicitly.  Durability mode `Immediate`, `max_wal_size_bytes = 0`.
 
   A *step* is one `fs_point` bracket of the real code (`Lbl`) together with its effect on the abstract disk.
   Only `persist.*` and `wal.*` brackets are steps; mkdirs and directory fsyncs are `nop`s of the strict FS model.
@@ -42,10 +43,18 @@ inductive Rec where
   | smeta (m : ShardMeta)            -- shards/<name>.json (one document)
   deriving DecidableEq, Repr
 
+/-- `sanitize_name` (persist/mod.rs:857): `:` and `/` become `_`. -/
+def sanitize (s : Name) : Name := s.map (fun c => if c = 58 ∨ c = 47 then 95 else c)
+
+/-- file name of a shard's metadata: `format!("{}.json", sanitize_name(name))` — the suffix is appended, nothing of
+    the name is cut off (names may contain dots). -/
+def metaFile (shard : Name) : Name := sanitize shard ++ [46, 106, 115, 111, 110]
+
 inductive Path where
   | wal | walNew
   | batch (id : Nat) | batchTmp (id : Nat)
-  | smeta (s : Name) | metaTmp (s : Name)
+  | smeta (file : Name)         -- shards/<file>           (file = metaFile shard)
+  | metaTmp (file : Name)       -- shards/<file>.tmp
   deriving DecidableEq, Repr
 
 abbrev Disk := Files Path Rec
@@ -156,9 +165,9 @@ def readBatch (d : Disk) (id : Nat) : Option (List Update) :=
 
 /-- `save_shard_meta` (mod.rs:320-351): write `<name>.json.tmp`, fsync it, rename over `<name>.json`. -/
 def saveShardMeta (w : World) (m : ShardMeta) : World :=
-  let w := emit w .metaTmpwrite (.write (.metaTmp m.name) [.smeta m])
-  let w := emit w .metaFsync (.fsync (.metaTmp m.name))
-  emit w .metaRename (.rename (.metaTmp m.name) (.smeta m.name))
+  let w := emit w .metaTmpwrite (.write (.metaTmp (metaFile m.name)) [.smeta m])
+  let w := emit w .metaFsync (.fsync (.metaTmp (metaFile m.name)))
+  emit w .metaRename (.rename (.metaTmp (metaFile m.name)) (.smeta (metaFile m.name)))
 
 def maxTimeP1 (us : List Update) : Nat := us.foldl (fun a u => max a (u.time + 1)) 0
 
@@ -289,19 +298,20 @@ def deleteShard (w : World) (s : Name) : World :=
       if any then emit w .deleteDirsyncBatches (.nop 0) else w
   let w := removeShardEntries w s
   if w.failed then w else
-  if (get w.disk (.smeta s)).isSome then
-    emit (emit w .deleteUnlinkMeta (.unlink (.smeta s))) .deleteDirsyncShards (.nop 0)
+  if (get w.disk (.smeta (metaFile s))).isSome then
+    emit (emit w .deleteUnlinkMeta (.unlink (.smeta (metaFile s)))) .deleteDirsyncShards (.nop 0)
   else w
 
 /-! ### storage-engine operations -/
 
 inductive EOp where
-  | ins (r : Name) (ts : List Nat)      -- insert_tuples_into
+  | ins (r : Name) (ts : List Nat)      -- insert_tuples_into (`r` = shard name `<kg>:<relation>`)
   | del (r : Name) (ts : List Nat)      -- delete_tuples_from
   | dropRel (r : Name)                  -- drop_relation_in
-  /-- `save_knowledge_graph("default")`.  The loop runs over a `HashMap`; `ord` is the iteration order (shards listed
-      first, in that order; the remaining ones after them) — a schedule parameter the theorems quantify over. -/
-  | flushAll (ord : List Name)
+  /-- `save_knowledge_graph(kg)`: flush every shard `kg:*`.  The loop runs over a `HashMap`; `ord` is the iteration
+      order (shards listed first, in that order; the remaining ones after them) — a schedule parameter the theorems
+      quantify over. -/
+  | flushAll (kg : Name) (ord : List Name)
   | compactAll (ord : List Name)        -- compact_all, same convention
   deriving DecidableEq, Repr
 
@@ -322,7 +332,7 @@ def orderBy (ord names : List Name) : List Name :=
 /-- the shards whose metadata was renamed into place, in order (what an observer of `shards/` sees). -/
 def metaOrder (trace : List Step) : List Name :=
   trace.filterMap (fun st => match st.2 with
-    | .rename (.metaTmp s) _ => some s
+    | .write (.metaTmp _) [.smeta m] => some m.name
     | _ => none)
 
 /-- one engine operation from a running engine; `trace` holds its steps, `failed` its acknowledgement. -/
@@ -347,8 +357,8 @@ def runOp (bufferSize : Nat) (w : World) (o : EOp) : World :=
     let w := { w with mem := { w.mem with known := w.mem.known.filter (· ≠ r) } }
     let w := deleteShard w r
     { w with failed := false }      -- `let _ = self.persist.delete_shard(..)`
-  | .flushAll ord =>
-    let w := flushList w (orderBy ord (w.mem.shards.map (·.1)))
+  | .flushAll kg ord =>
+    let w := flushList w (orderBy ord ((w.mem.shards.map (·.1)).filter (fun n => (kg ++ [58]).isPrefixOf n)))
     if w.failed then w else syncWal w
   | .compactAll ord =>
     let w := compactList w (orderBy ord (w.mem.shards.map (·.1)))
@@ -362,12 +372,13 @@ def metaPaths (d : Disk) : List Name := d.filterMap (fun e => match e.1 with | .
     (in memory only); `next_batch_id` is raised above every referenced id. -/
 def loadShards (d : Disk) : List Name → Option (List (Name × Shard) × Nat)
   | [] => some ([], 1)
-  | s :: rest =>
-    match readDoc d (.smeta s), loadShards d rest with
+  | f :: rest =>
+    match readDoc d (.smeta f), loadShards d rest with
     | some (.smeta m), some (l, nb) =>
       let nb' := m.batches.foldl (fun a b => max a (b.id + 1)) nb
       let valid := m.batches.filter (fun b => (get d (.batch b.id)).isSome)
-      some ((m.name, { md := { m with batches := valid }, buffer := [] }) :: l, nb')
+      -- `shards.insert(meta.name, …)`: a `HashMap` insert, keyed by the name stored in the document
+      some (sSet l m.name { md := { m with batches := valid }, buffer := [] }, nb')
     | _, _ => none
 
 def referenced (shards : List (Name × Shard)) (id : Nat) : Bool :=
@@ -415,30 +426,51 @@ def loadRelations (d : Disk) : List (Name × Shard) → Option (List (Name × Li
     | some us, some l => some ((s, positive us) :: l)
     | _, _ => none
 
-/-- `StorageEngine::new` on a disk image: `none` = the engine does not open.  The steps are in `trace`. -/
-def openEngine (d : Disk) (ord : List Name := []) : Option World :=
-  let w : World := { disk := d }
-  let w := emit w .persistNewMkdir (.nop 0)
-  let w := emit w .walNewMkdir (.nop 0)
+/-- the world right after `load_shards` (the two mkdirs are `nop`s of the strict FS model) -/
+def loadWorld (d : Disk) (shards : List (Name × Shard)) (nb : Nat) : World :=
+  { mem := { shards := shards, nextBatch := nb }, disk := d,
+    trace := [(.persistNewMkdir, .nop 0), (.walNewMkdir, .nop 0)] }
+
+/-- `cleanup_orphaned_batches` incl. the directory fsync when something was removed -/
+def afterCleanup (w : World) (ps : List Path) : World :=
+  let r := cleanupOrphans w ps
+  if r.2 then emit r.1 .orphansDirsync (.nop 0) else r.1
+
+/-- recovery stage 1 — `FilePersist::new` up to and including `cleanup_orphaned_batches`: directories,
+    `load_shards`, orphan cleanup. -/
+def stageLoad (d : Disk) : Option World :=
   match loadShards d (metaPaths d) with
   | none => none
-  | some (shards, nb) =>
-    let w := { w with mem := { w.mem with shards := shards, nextBatch := nb } }
-    let (w, removed) := cleanupOrphans w (paths d)
-    let w := if removed then emit w .orphansDirsync (.nop 0) else w
-    match readAll w.disk with
+  | some (shards, nb) => some (afterCleanup (loadWorld d shards nb) (paths d))
+
+/-- recovery stage 2 — `replay_wal` and the drain flush of every shard that got entries (`ord`: iteration order). -/
+def stageReplay (w : World) (ord : List Name) : Option World :=
+  match readAll w.disk with
+  | none => none
+  | some entries =>
+    let w := { w with mem := { w.mem with shards := replay w.mem.shards entries } }
+    let w := if entries = [] then w else flushList w (orderBy ord (dirty w.mem.shards))
+    if w.failed then none else some w
+
+/-- recovery stage 3 — `cleanup_archives`, then `load_all_knowledge_graphs`: every shard is read back, the known
+    relations and the logical clock are rebuilt. -/
+def stageFinish (w : World) : Option World :=
+  let w := if (get w.disk .walNew).isSome then emit w .walArchivesUnlinkNew (.unlink .walNew) else w
+  match loadRelations w.disk w.mem.shards with
+  | none => none
+  | some rels =>
+    let known := (rels.filter (fun e => e.2 ≠ [])).map (·.1)
+    let maxUpper := w.mem.shards.foldl (fun a e => max a e.2.md.upper) 0
+    some { w with mem := { w.mem with known := known, clock := maxUpper + 1 } }
+
+/-- `StorageEngine::new` on a disk image: `none` = the engine does not open.  The steps are in `trace`. -/
+def openEngine (d : Disk) (ord : List Name := []) : Option World :=
+  match stageLoad d with
+  | none => none
+  | some w =>
+    match stageReplay w ord with
     | none => none
-    | some entries =>
-      let w := { w with mem := { w.mem with shards := replay w.mem.shards entries } }
-      let w := if entries = [] then w else flushList w (orderBy ord (dirty w.mem.shards))
-      if w.failed then none else
-      let w := if (get w.disk .walNew).isSome then emit w .walArchivesUnlinkNew (.unlink .walNew) else w
-      match loadRelations w.disk w.mem.shards with
-      | none => none
-      | some rels =>
-        let known := (rels.filter (fun e => e.2 ≠ [])).map (·.1)
-        let maxUpper := w.mem.shards.foldl (fun a e => max a e.2.md.upper) 0
-        some { w with mem := { w.mem with known := known, clock := maxUpper + 1 } }
+    | some w => stageFinish w
 
 /-- what the reopened engine serves: non-empty relations with their tuples, sorted by relation name. -/
 def insertRel (e : Name × List Nat) : List (Name × List Nat) → List (Name × List Nat)
@@ -479,7 +511,7 @@ def imageAt (d0 : Disk) (trace : List Step) (j : Nat) (cut : Option Cut) : Disk 
 /-- the observable shard order of a multi-shard loop (empty for single-shard operations). -/
 def loopOrder (o : EOp) (trace : List Step) : List Name :=
   match o with
-  | .flushAll _ => metaOrder trace
+  | .flushAll _ _ => metaOrder trace
   | .compactAll _ => metaOrder trace
   | _ => []
 
